@@ -190,6 +190,59 @@ Proof.
         try (unfold lp, s2 in *; cbn [p_r p_tree with_counters]; rewrite Q1, Q3; exact Hcap). }
   unfold wp in W. destruct (parse_rest2 fuel s) as [[b s']| |]; auto.
 Qed.
+(** the same with a postcondition (see ParserTotalChain.rest_post): [J] is an invariant of connectNamedObjArgs that implies [SH]
+    and the invariant [KI] of the resolve loop *)
+Section Post2.
+Variable K : T -> ghost -> Prop.
+Hypothesis K_move : Kmove K.
+Hypothesis K_upd : Kupd K.
+Hypothesis K_walk : forall f4 pf s g s1 g1, WI s g -> parseDeferredBlocks f4 pf 0 s = Ok (ROk, s1) -> WI s1 g1 -> wstep s g s1 g1 -> TM NoX s1 g1 ->
+  K (p_tree s) g -> K (p_tree s1) g1.
+Variable KI : pstate -> ghost -> Prop.
+Hypothesis KI_KS : forall s g, KI s g -> KS s g.
+Hypothesis KI_loop : forall wf fuel s g, MI KI NoX s g ->
+  wp True (resolve_loop fuel wf) s (fun _ s' => exists g', MI KI NoX s' g').
+Hypothesis K_start : forall s g, MI KI NoX s g -> K (p_tree s) g.
+Variable J : pstate -> ghost -> Prop.
+Hypothesis J_SH : forall s g, J s g -> SH s g.
+Hypothesis J_conn : forall fuel, CN_spec2 J fuel.
+Hypothesis J_KI : forall s g a b c, J s g -> KI (with_counters s a b c) g.
+
+Theorem rest2_post : forall fuel s g,
+  R (p_tree s) g -> info_valid (p_tree s) -> rok (p_r s) -> p_scopeStack s = [] -> IV s ->
+  J s g -> typed (p_tree s) ->
+  lp s + lp s * (8 * r_len (p_r s) + 3) + 4 <= InvalidIndex ->
+  match parse_rest2 fuel s with
+  | Ok (b, s') => tpost K b s'
+  | Panic => False
+  | OutOfFuel => True
+  end.
+Proof.
+  intros fuel s g HR Hi Hrk Hst I0 HJ Htyp Hcap.
+  assert (Hpool : pool_ok (p_tables s) (p_tree s)) by (rewrite (inv_tbls _ _ I0); apply (inv_pool _ _ I0)).
+  assert (HT : TI s g) by (constructor; auto).
+  assert (W : wp True (parse_rest2 fuel) s (tpost K)).
+  { unfold parse_rest2.
+    apply (wp_bind_inv tbls _ _ _ _ _ I0); [apply (proj1 (hoare_connectNamed tbls fuel))|].
+    eapply wp_weaken; [apply (wp_and_pc _ _ _ _ (fun _ s' => (p_r s' = p_r s /\ p_scopeStack s' = p_scopeStack s /\
+                                  length (t_pool (p_tree s')) = length (t_pool (p_tree s))) /\ typed (p_tree s'))
+                         (J_conn fuel 0 s g HT HJ (proj1 (J_SH _ _ HJ))))|auto|].
+    - intros a s' E. split; [apply (proj1 (connectNamed_quiet fuel) 0 s a s' E)|apply (proj1 (connectNamed_tyk fuel) 0 s a s' E Htyp)].
+    - intros r2 s1 ((g1 & [A B C] & HJ1 & _) & (Q1 & Q2 & Q3) & Ht1) I1.
+      destruct (pres_eqb r2 ROk); cbn [negb].
+      2:{ apply wp_ret. exists g1. split; [exact A|]. split; [exact B|]. split; [exact C|discriminate]. }
+      apply wp_bind. apply wp_counters.
+      set (s2 := with_counters s1 1 (p_mergedScopes s1) (p_relocatedObjects s1)).
+      assert (I2 : IV s2) by (destruct I1 as [J1 J2 J3 J4 J5]; constructor; assumption).
+      destruct (J_SH _ _ HJ1) as (K0 & K1 & K2 & K3 & K4 & K5).
+      pose proof (rest_post tbls K K_move K_upd K_walk KI KI_KS KI_loop K_start fuel s2 g1 A B) as T.
+      unfold wp. destruct (parse_rest fuel s2) as [[b s']| |] eqn:Et; auto; apply T; auto;
+        try (unfold s2; cbn [p_r with_counters]; rewrite Q1; exact Hrk); try (unfold s2; cbn [p_scopeStack with_counters]; rewrite Q2; exact Hst);
+        try (unfold lp, s2 in *; cbn [p_r p_tree with_counters]; rewrite Q1, Q3; exact Hcap);
+        try (apply J_KI; exact HJ1). }
+  unfold wp in W. destruct (parse_rest2 fuel s) as [[b s']| |]; auto.
+Qed.
+End Post2.
 End Pass2.
 
 Lemma rest2_hyps_example :
